@@ -218,6 +218,10 @@ theorem gen_curvePoint_isOnCurve_eq_model_gfp (c : G1J) :
     (curvePoint_isOnCurve (GFp.newGFp 3) c).2 = curveIsOnCurve c := by
   rw [gen_curvePoint_isOnCurve_eq_model]; rfl
 
+/-- at the Montgomery gfP the two Neg translations are the driver's `curveNeg` / `twistNeg` -/
+theorem gen_neg_eq_model_gfp : @curvePoint_neg GFp _ _ = curveNeg ∧ @twistPoint_neg GFp _ = twistNeg :=
+  ⟨rfl, rfl⟩
+
 example : curvePoint_add (⟨0, 0, 0, 0⟩ : Jac Int) ⟨1, 2, 1, 1⟩ ⟨4, 16, 2, 4⟩ =
     curvePoint_double ⟨0, 0, 0, 0⟩ ⟨1, 2, 1, 1⟩ := by decide
 example : (curvePoint_double (⟨0, 0, 0, 7⟩ : Jac Int) ⟨1, 2, 1, 1⟩).t = 7 := by decide
@@ -302,7 +306,7 @@ theorem gen_mulLine_eq_model : @Bn256Code.mulLine GFp _ _ _ _ = Dos.Bn256.mulLin
     gen_gfP2_set_eq_model, gen_gfP2_add_eq_model, Fp2.zero]
 
 set_option maxRecDepth 100000 in
-/-- the Miller loop: the translation is the loop UNROLLED over the 64 digits of sixuPlus2NAF (232 lets), the
+/-- the Miller loop: the translation is the loop UNROLLED over the 64 digits of sixuPlus2NAF (265 lets), the
 model folds over the regenerated digit list; equal by evaluation of the fold -/
 theorem gen_miller_eq_model : @Bn256Code.miller GFp _ _ _ _ _ _ _ _ frobConsts = Dos.Bn256.miller := by
   funext q p
